@@ -52,12 +52,26 @@ func (c *LocalChecker) recursiveUserset(_ context.Context, req *ResolveCheckRequ
 	return func(ctx context.Context) (*ResolveCheckResponse, error) {
 		typesys, _ := typesystem.TypesystemFromContext(ctx)
 
-		directlyRelatedUsersetTypes, _ := typesys.DirectlyRelatedUsersets(tuple.GetType(req.GetTupleKey().GetObject()), req.GetTupleKey().GetRelation())
+		objectType, relation := tuple.GetType(req.GetTupleKey().GetObject()), req.GetTupleKey().GetRelation()
+		directlyRelatedUsersetTypes, _ := typesys.DirectlyRelatedUsersets(objectType, relation)
+		// Only the self-referencing userset (objectType#relation) is part of the recursion: the userset mapper
+		// drops the relation of a userset, so tuples of any other directly related userset type (which cannot
+		// lead to the user type, otherwise this resolver is not offered) must not be followed.
+		recursiveUsersetTypes := make([]*openfgav1.RelationReference, 0, 1)
+		for _, ref := range directlyRelatedUsersetTypes {
+			if ref.GetType() == objectType && ref.GetRelation() == relation {
+				recursiveUsersetTypes = append(recursiveUsersetTypes, ref)
+			}
+		}
+		selfOnly := storage.NewFilteredTupleKeyIterator(rightIter, func(tk *openfgav1.TupleKey) bool {
+			usersetObject, usersetRelation := tuple.SplitObjectRelation(tk.GetUser())
+			return usersetRelation == relation && tuple.GetType(usersetObject) == objectType
+		})
 		objectProvider := newRecursiveUsersetObjectProvider(typesys)
 
-		return c.recursiveFastPath(ctx, req, rightIter, &recursiveMapping{
+		return c.recursiveFastPath(ctx, req, selfOnly, &recursiveMapping{
 			kind:                        storage.UsersetKind,
-			allowedUserTypeRestrictions: directlyRelatedUsersetTypes,
+			allowedUserTypeRestrictions: recursiveUsersetTypes,
 		}, objectProvider)
 	}
 }
